@@ -55,11 +55,11 @@ type stream struct {
 	n          func(tier string) int // number of cases (deterministic, never a time budget)
 	unit       int                   // cases per worker process
 	run        func(c *caseCtx)
-	exhaustive bool                  // the stream enumerates a finite space completely
-	floors     map[string]int64      // counters that must reach this minimum (per run), else inconclusive
-	service    bool                  // cases run through the service's own handler (decideHandler of main.go, in-process) after a short history of other requests
-	watchdog   time.Duration         // generous wall-clock limit per unit; expiry alone is never a violation
-	serial     bool                  // run the units of this stream one at a time (they spawn their own processes)
+	exhaustive bool             // the stream enumerates a finite space completely
+	floors     map[string]int64 // counters that must reach this minimum (per run), else inconclusive
+	service    bool             // cases run through the service's own handler (decideHandler of main.go, in-process) after a short history of other requests
+	watchdog   time.Duration    // generous wall-clock limit per unit; expiry alone is never a violation
+	serial     bool             // run the units of this stream one at a time (they spawn their own processes)
 	note       string
 }
 
@@ -108,7 +108,7 @@ type workerResult struct {
 	Samples      []json.RawMessage `json:"samples"`
 	Inconclusive []string          `json:"inconclusive"`
 	distinctSet  map[uint64]struct{}
-	Done         bool              `json:"done"`
+	Done         bool `json:"done"`
 }
 
 func newWorkerResult() *workerResult {
